@@ -27,6 +27,6 @@ lines = ['# Independently written breaking changes', '',
          'column says what was added until the quick tier catches them (or what the check answers instead).', '',
          '| id | change | needs | result | strengthened |', '|---|---|---|---|---|']
 for m in metas:
-    lines.append('| %s | %s | %s | %s | %s |' % (m['_id'], cell(m.get('summary')), cell(m.get('needs'), 300), cell(m.get('result')), cell(m.get('strengthened'))))
+    lines.append('| %s | %s | %s | %s | %s |' % (m['_id'], cell(m.get('summary')), cell(m.get('needs'), 300), cell((m.get('result') or '') + ((' - NOT CLAIMED: ' + m['assessment']) if m.get('assessment') else '')), cell(m.get('strengthened'))))
 open(os.path.join(ROOT, 'seeded', 'README.md'), 'w').write('\n'.join(lines) + '\n')
 print(len(metas), 'entries;', len(first), 'caught as first built')
